@@ -19,8 +19,10 @@ binding:   (a) every CASE line of TLC (class sequence + the block structure the 
                parser computed: which line is which block's header / change line / trailer) is
                concretized by the grammar-driven generator of changelog_common (quick: 3 times, the
                first one canonical; thorough: once, the canonical form is tried after a failure to
-               attribute it to structure or payload) and replayed: Changelog(text, strict=True) under
-               warnings.simplefilter("error") returns; str(cl) == text; package, version,
+               attribute it to structure or payload) and replayed: Changelog(text, strict=True) returns
+               and the parser emitted no warning (only UserWarning records originating in the repository
+               under test count; nothing is turned into an error process-wide; no TLC job runs while
+               warnings are captured); str(cl) == text; package, version,
                distributions, urgency, urgency_comment, other_pairs, changes(), author, date of every
                block equal what the generator wrote in the lines TLC assigned to the block;
            (b) random well-formed changelogs of up to 60 lines are parsed prefix by prefix (prefix
